@@ -145,6 +145,39 @@ impl<TC: Configuration> TreeView<TC> {
         })
     }
 
+    /// Non-membership "proofs" for labels that carry (a prefix of) the bits of `q` but a bit length
+    /// k < 256: for every node A on the path towards `q` (A != q) and k with A.len <= k < len of the
+    /// next path node (or 256), the label (q's bits, k) really is absent from the tree, so the tree part
+    /// of the proof is genuine — only the VRF binding (node label = full 256-bit VRF output) can reject
+    /// it when it is presented as the absence of `q`.  `keep_bytes` keeps q's 32 bytes verbatim (a
+    /// non-canonical label); otherwise the bits beyond k are zeroed.
+    pub fn shortened_label_nonmembership(&self, q: &NodeLabel) -> Vec<(u32, bool, NonMembershipProof)> {
+        let mut out = vec![];
+        let path = self.path(q);
+        for (i, a) in path.iter().enumerate() {
+            if a == q {
+                continue;
+            }
+            let next_len = path.get(i + 1).map(|n| n.label_len).unwrap_or(256).min(256);
+            let mut ks = vec![a.label_len, a.label_len + 1, next_len.saturating_sub(1), 255];
+            ks.retain(|k| *k >= a.label_len && *k < next_len && *k < 256);
+            ks.sort();
+            ks.dedup();
+            for k in ks {
+                for keep_bytes in [true, false] {
+                    let label = NodeLabel {
+                        label_val: if keep_bytes { q.label_val } else { q.get_prefix(k).label_val },
+                        label_len: k,
+                    };
+                    if let Some(p) = self.nonmembership_at(&label, a) {
+                        out.push((k, keep_bytes, p));
+                    }
+                }
+            }
+        }
+        out
+    }
+
     /// ground truth: is `q` a leaf of the tree?
     pub fn is_leaf(&self, q: &NodeLabel) -> bool {
         self.nodes.get(q).map(|n| n.node_type == TreeNodeType::Leaf).unwrap_or(false)
